@@ -14,7 +14,7 @@ const ChildEnv = "CEDARVERIF_C17_CHILD"
 
 // Job describes what one child process runs.
 type Job struct {
-	Phases   []string `json:"phases"` // "pairs" "stress" "hist" "handshake" "handshake_seq" "manager" "manager_seq" "duplex"
+	Phases   []string `json:"phases"` // "pairs" "stress" "hist" "handshake" "handshake_seq" "fresh" "manager" "manager_seq" "duplex" "ccb"
 	Seed     int64    `json:"seed"`
 	Procs    int      `json:"procs"`
 	Yield    bool     `json:"yield"`
@@ -81,6 +81,10 @@ func ChildMain(jobPath string) {
 			res.Net[ph] = Handshakes(job.Seed, job.Clients, job.Iters, false, job.Yield, true)
 		case "handshake_seq":
 			res.Net[ph] = Handshakes(job.Seed, 2, 3, true, false, false)
+		case "ccb":
+			res.Net[ph] = CCBListener(job.Seed, job.Yield)
+		case "fresh":
+			res.Net[ph] = FreshHandshakes(job.Seed, job.Clients, job.Iters, job.Yield)
 		case "manager_seq":
 			res.Net[ph] = Managers(job.Seed, 2, 3, true, false)
 		case "manager":
